@@ -71,7 +71,7 @@ CLAIMED = {
             "Trusted: Lean kernel + standard axioms; transcription of fvm1d (validated by L-rhs1d) and kernels; sampling for the un-proved clauses.",
             "DESIGN.md 4/C13"),
     'C10': ("Lean 4 theorems (admissible cone; HLL star state; the first-order HLL update as an explicit convex combination; the code's HLLE / HLL / Rusanov fluxes are HLL fluxes with its own speeds; positivity of one step and of the SSP steps on the periodic pipeline model) + translated kernels + exact-Q correspondence + positivity sweep",
-            "Machine-checked proof: the update U - nu (F(U,Ur) - F(Ul,U)) of an HLL-type flux is an explicit convex combination of U and the two star states when nu (sR(left face) - sL(right face)) <= 1; the model's eHlle, swHll and swRusanov are HLL fluxes with the code's own wave speeds, which enclose the physical speeds; hence one forward-Euler step of the first-order periodic pipeline model keeps density and pressure (Euler HLLE, any cell sizes, face condition on the code's speeds) resp. depth (shallow water rusanov/hll, cell condition CFL <= 1/2 with the code's own swDt) positive in every cell, and so do the rk2_heun / rk3ssp step models (condition at every stage). PARTIAL: for Euler the cell condition CFL <= 1/2 does not imply the face condition in general (counterexample in C10b) and is explored by the sweep; HLLC, open boundaries and the finiteness clause (binary64) by the sweep.",
+            "Machine-checked proof: the update U - nu (F(U,Ur) - F(Ul,U)) of an HLL-type flux is an explicit convex combination of U and the two star states when nu (sR(left face) - sL(right face)) <= 1; the model's eHlle, swHll and swRusanov are HLL fluxes with the code's own wave speeds, which enclose the physical speeds; hence one forward-Euler step of the first-order periodic pipeline model keeps density and pressure (Euler HLLE, any cell sizes, face condition on the code's speeds) resp. depth (shallow water rusanov/hll, cell condition CFL <= 1/2 with the code's own swDt) positive in every cell, and so do the rk2_heun / rk3ssp step models (condition at every stage). PARTIAL: for Euler the cell condition CFL <= 1/2 does not imply the face condition in general (counterexample in C10b) and is explored by the sweep; open ends with any admissibility-preserving boundary kernels (slip walls, dirichlet, outsup, outsub) are covered by C10c; HLLC and the finiteness clause (binary64) by the sweep.",
             "Trusted: Lean kernel + standard axioms; transcription of flux kernels (L-flux-*, bridge theorems), pipeline (L-rhs1d), integrators (L-int); sampling for the un-proved clauses.",
             "DESIGN.md 4/C10"),
     'C09': ("Lean 4 theorems (Harten's lemma on ZMod n; upwind, MUSCL with every limiter, first-order Burgers: one step, SSP steps, whole solves) + exact-Q correspondence + TVD sweep",
@@ -83,7 +83,7 @@ CLAIMED = {
             "Trusted: Lean kernel + standard axioms; gen_tables.py; the exact Riemann solver of the harness (riemann_exact.py); aerokit is external and unmodelled.",
             "DESIGN.md 4/C04, 6"),
     'C15': ("Lean 4 theorems on the structured 2D pipeline model (balance, periodic invariance, x/y shift equivariance, transposition, reflection in x and y with any boundary pairs, row-by-row reduction to the 1D pipeline) for arbitrary kernels obeying kernel laws proved for the Euler 2D kernels + exact-Q correspondence of every 2D stage",
-            "Machine-checked proof on the 2D model: transposing the problem (grid, data, velocity components, boundary pairs) transposes the residual; for y-independent data with periodic top/bottom each row of the 2D residual is the residual of the corresponding 1D discretisation (same flux, kappa scheme / first order) and the y-fluxes cancel; kernel laws (transposition, reduction to 1D, mirror in x and y) proved for e2Centered / e2Hlle (C02). Reflection of the full operator in x and in y with any boundary pairs (exchanged and conjugated) is proved and instantiated for Euler 2D including the named boundary kernels (C15b; HLLE assumes positive face densities at the mirrored cell). Partial: wall (sym) top/bottom in the row-by-row reduction is explored by the sweep.",
+            "Machine-checked proof on the 2D model: transposing the problem (grid, data, velocity components, boundary pairs) transposes the residual; for y-independent data with periodic top/bottom each row of the 2D residual is the residual of the corresponding 1D discretisation (same flux, kappa scheme / first order) and the y-fluxes cancel; kernel laws (transposition, reduction to 1D, mirror in x and y) proved for e2Centered / e2Hlle (C02). Reflection of the full operator in x and in y with any boundary pairs (exchanged and conjugated) is proved and instantiated for Euler 2D including the named boundary kernels (C15b; HLLE assumes positive face densities at the mirrored cell). With slip walls or periodicity at top/bottom the rows of the 2D residual are proved equal to the residuals of the model's own 1D Euler pipeline and the y-momentum residual vanishes (C15c.euler2d_rows_walls/_periodic).",
             "Trusted: Lean kernel + standard axioms; the structured-index model and its flattening maps (validated by L-rhs2d over all four stage arrays and L-mesh2d); sampling for the partial clauses.",
             "DESIGN.md 4/C15"),
 }
